@@ -1037,6 +1037,8 @@ def expand_locals(fn, n, depth=3):
 def accepting_paths(m):
     """Paths of addSegment that return true, each with its atoms and its entry writes in path order."""
     f = m.addSegment
+    if (f.raw.get("rett") or {}).get("k") != "bool":
+        raise Broken("SegmentedPacket::addSegment no longer returns bool (accepted / rejected): the accept/reject rules must be re-derived")
     wids = {n["id"]: (d, kind) for d, kind, n in entry_writes(m)}
     out = []
     for p in paths.enumerate_paths(f):
